@@ -408,6 +408,13 @@ class MultiIndexBackend(DataFrameSchemaBackend):
                 data=check_obj,
             )
 
+        if not coerced_multi_index:
+            # no level matches the schema, validate reports the mismatch
+            return check_obj
+        if not is_multiindex(check_obj):
+            # a plain index stays a plain index
+            return coerced_multi_index[0]
+
         multiindex_cls = pd.MultiIndex
         # NOTE: this is a hack to support pyspark.pandas
         if type(check_obj).__module__.startswith("pyspark.pandas"):
